@@ -54,9 +54,12 @@ type kvElection struct {
 
 	wg sync.WaitGroup
 
-	ctx     context.Context
-	cancel  context.CancelFunc
-	stopped bool // a stop call has been made and Start has not been called since (guarded by mu)
+	ctx    context.Context
+	cancel context.CancelFunc
+	// termCancel ends the context of the current leadership term (heartbeat and
+	// validation loops, OnPromote callback); nil while not leader. Guarded by mu.
+	termCancel context.CancelFunc
+	stopped    bool // a stop call has been made and Start has not been called since (guarded by mu)
 
 	onPromote func(ctx context.Context, token string)
 	onDemote  func()
@@ -438,16 +441,24 @@ func (e *kvElection) becomeLeader(token string, rev uint64) bool {
 		)...,
 	)
 
+	// Everything that belongs to this term runs under a context that is cancelled
+	// when the term ends (demotion for any reason, or stop).
+	if e.termCancel != nil {
+		e.termCancel()
+	}
+	termCtx, termCancel := context.WithCancel(e.ctx)
+	e.termCancel = termCancel
+
 	e.wg.Add(1)
 	go func() {
 		defer e.wg.Done()
-		e.heartbeatLoop(e.ctx)
+		e.heartbeatLoop(termCtx)
 	}()
 
 	e.wg.Add(1)
 	go func() {
 		defer e.wg.Done()
-		e.validationLoop(e.ctx)
+		e.validationLoop(termCtx)
 	}()
 
 	if e.onPromote != nil {
@@ -469,7 +480,7 @@ func (e *kvElection) becomeLeader(token string, rev uint64) bool {
 					)
 				}
 			}()
-			promoteCtx, cancel := context.WithCancel(e.ctx)
+			promoteCtx, cancel := context.WithCancel(termCtx)
 			defer cancel()
 			e.onPromote(promoteCtx, token)
 		}()
@@ -542,6 +553,10 @@ func (e *kvElection) becomeFollower() bool {
 
 	wasLeader := e.isLeader.Load()
 	e.isLeader.Store(false)
+	if e.termCancel != nil {
+		e.termCancel()
+		e.termCancel = nil
+	}
 	if !e.running() {
 		if wasLeader {
 			e.recordLeaderDuration()
